@@ -240,7 +240,8 @@ def run_module(classes, args):
 class C19(core.Prop):
     pid = 'C19'
     lean_modules = ['TddaVerif.Props.C19']
-    theorems = []
+    theorems = ['TddaVerif.Props.C19.' + t for t in ['parseArgv_spec', 'write_needs_kinds', 'tagged_selects_exactly',
+        'untagged_selects_all', 'selected_once', 'check_runs_none', 'check_lists_exactly', 'selectTests_mem']]
     quick_n = 1500
     thorough_n = 30000
     n_sub_quick = 48
